@@ -420,7 +420,12 @@ impl RuntypeName {
                 address: enum_type,
                 member_name,
             } => {
-                format!("{}__{}", enum_type.ts_identifier(all_names), member_name)
+                // `E.A` is printed `E__A`: not under the name of a declared type `E__A`
+                let mut name = format!("{}__{}", enum_type.ts_identifier(all_names), member_name);
+                while Self::is_declared_name(all_names, &name) {
+                    name.push('_');
+                }
+                name
             }
             RuntypeName::BuiltIn(ts_built_in) => ts_built_in.to_string(),
         }
